@@ -110,6 +110,93 @@ def tx_name(state):
     return None
 
 
+def descr_results(pm, canon, results, rnd, budget):
+    """what a descriptor transaction published (descr_created / descr_updated / descr_deleted and the states that go with
+    them) must neither be the objects stored in the MDIB nor change through later transactions; writing into it must not
+    change the MDIB"""
+    import copy as _copy
+
+    def snap_key():
+        s = mdibrun.snapshot(pm, canon)
+        return json.dumps({k: s[k] for k in ('ver', 'descrs', 'states', 'cstates')}, sort_keys=True)
+
+    def stored_ids():
+        return {id(o) for t in (pm.descriptions, pm.states, pm.context_states) for o in t.objects}
+
+    channel = next(d for d in pm.descriptions.objects if d.NODETYPE.localname == 'ChannelDescriptor')
+    metric_tpl = next(d for d in pm.descriptions.objects if d.NODETYPE.localname == 'NumericMetricDescriptor')
+    vmd = pm.descriptions.handle.get_one(channel.parent_handle)
+
+    def new_descr(tpl, handle, parent):
+        d = _copy.deepcopy(tpl)
+        d.Handle, d.parent_handle, d.DescriptorVersion = handle, parent, 0
+        d.set_source_mds(None)
+        return d
+
+    def published(kind):
+        tr = pm.transaction
+        objs = [('descr_created', o) for o in tr.descr_created] + [('descr_updated', o) for o in tr.descr_updated] + \
+               [('descr_deleted', o) for o in tr.descr_deleted] + [('states', o) for o in tr.all_states()]
+        return [(f'{kind}:{name}', o) for name, o in objs]
+
+    steps = []
+    # 1. create a channel with a metric below it
+    with pm.descriptor_transaction() as tr:
+        c = new_descr(channel, 'verif_ch', vmd.Handle)
+        tr.add_descriptor(c, state_container=pm.data_model.mk_state_container(c))
+        m = new_descr(metric_tpl, 'verif_m1', 'verif_ch')
+        tr.add_descriptor(m, state_container=pm.data_model.mk_state_container(m))
+    steps.append(published('create'))
+    # 2. add a second child (bumps verif_ch), update verif_m1
+    with pm.descriptor_transaction() as tr:
+        m2 = new_descr(metric_tpl, 'verif_m2', 'verif_ch')
+        tr.add_descriptor(m2, state_container=pm.data_model.mk_state_container(m2))
+        d = tr.get_descriptor('verif_m1')
+        mdibrun.set_payload(d, 3, pm.data_model.pm_types)
+    steps.append(published('add+update'))
+    held = [(name, o, mdibrun.canon_value(o)) for st in steps for name, o in st]
+    ids = stored_ids()
+    for name, o, _v in held:
+        if id(o) in ids:
+            results.append({'getter': f'transaction result {name}', 'handle': getattr(o, 'Handle', None) or o.DescriptorHandle,
+                            'path': ['<the object itself is the one stored in the MDIB>'], 'wrote': True, 'mdib_changed': True})
+    # 3. later transactions: update, add below, remove
+    with pm.descriptor_transaction() as tr:
+        d = tr.get_descriptor('verif_ch')
+        mdibrun.set_payload(d, 5, pm.data_model.pm_types)
+        m3 = new_descr(metric_tpl, 'verif_m3', 'verif_ch')
+        tr.add_descriptor(m3, state_container=pm.data_model.mk_state_container(m3))
+    with pm.metric_state_transaction() as tr:
+        s = tr.get_state('verif_m1')
+        mdibrun.set_payload(s, 9, pm.data_model.pm_types)
+    with pm.descriptor_transaction() as tr:
+        tr.remove_descriptor('verif_m2')
+    for name, o, v in held:
+        now = mdibrun.canon_value(o)
+        results.append({'getter': f'transaction result {name} vs later commits', 'handle': getattr(o, 'Handle', None) or o.DescriptorHandle,
+                        'path': ['<whole object>'], 'wrote': True, 'mdib_changed': now != v})
+    # 4. writing into a published object never reaches the MDIB
+    for name, o, _v in held:
+        paths = paths_of(o)
+        rnd.shuffle(paths)
+        for path in paths[:max(2, budget // 3)]:
+            before = snap_key()
+            try:
+                wrote = apply_path(o, path)
+            except Exception:  # noqa: BLE001
+                continue
+            results.append({'getter': f'transaction result {name} (written outside a transaction)',
+                            'handle': getattr(o, 'Handle', None) or o.DescriptorHandle, 'path': [str(p) for p in path],
+                            'wrote': wrote, 'mdib_changed': snap_key() != before})
+            if wrote and path[-1] == '[]':          # take the probe element out again (a shared list would keep it)
+                cur = o
+                for step in path[:-1]:
+                    cur = cur[step] if isinstance(step, int) else getattr(cur, step)
+                cur.pop()
+    with pm.descriptor_transaction() as tr:
+        tr.remove_descriptor('verif_ch')
+
+
 def main():
     w = World()
     pm = w.provider.mdib
@@ -175,6 +262,29 @@ def main():
                                 'mdib_changed': after != before})
                 if after != before:
                     before = after
+        # objects handed out by a transaction that then COMMITTED: they stay private, writing them later (outside any
+        # transaction) must not reach the MDIB
+        for gname, txn, getter in (('tx.get_state (kept after the commit)', tx_name(st), lambda tr: tr.get_state(h)),
+                                   ('descr_tx.get_descriptor (kept after the commit)', 'descriptor_transaction',
+                                    lambda tr: tr.get_descriptor(h))):
+            with getattr(pm, txn)() as tr:
+                kept = getter(tr)
+                mdibrun.set_payload(kept, 13, pm.data_model.pm_types)
+            paths = paths_of(kept)
+            rnd.shuffle(paths)
+            for path in paths[:max(2, budget // 2)]:
+                before = snap_key()
+                try:
+                    wrote = apply_path(kept, path)
+                except Exception:  # noqa: BLE001
+                    continue
+                results.append({'getter': gname, 'handle': h, 'path': [str(p) for p in path], 'wrote': wrote,
+                                'mdib_changed': snap_key() != before})
+                if wrote and path[-1] == '[]':
+                    cur = kept
+                    for step in path[:-1]:
+                        cur = cur[step] if isinstance(step, int) else getattr(cur, step)
+                    cur.pop()
         # published copies: the result of an earlier commit must not change through a later transaction
         txn = tx_name(st)
         with getattr(pm, txn)() as tr:
@@ -203,6 +313,12 @@ def main():
         one_handle(h)
       except Exception:  # noqa: BLE001
         results.append({'getter': 'harness', 'handle': h, 'path': [], 'error': traceback.format_exc()[-400:]})
+
+    # results of descriptor transactions: the published TransactionResult must hold private copies
+    try:
+        descr_results(pm, canon, results, rnd, budget)
+    except Exception:  # noqa: BLE001
+        results.append({'getter': 'harness(descr results)', 'handle': '', 'path': [], 'error': traceback.format_exc()[-400:]})
 
     # context states
     for ch in ('p1',):
